@@ -113,3 +113,28 @@ def high_degree_family():
             out.append(sdesc([a, conn(ALPHABET[2], True)], [b]))
             out.append(sdesc([a], [b, conn(ALPHABET[6], True)], pats=all_patterns(1, 2, [False], [False, True])))
     return out
+
+
+def pattern_family():
+    """Settings that the pattern encoders are written for, with the parameters they distinguish (minimum number of
+    connections per source 0..3, repetition allowed or not, surjective or not; choose-one; permutation-like)."""
+    out = []
+    for rep in (False, True):
+        for smin in (0, 1, 2, 3):
+            for tmin in (0, 1):
+                for ns, nt in ((1, 3), (2, 2), (2, 3)):
+                    out.append(sdesc([{'dl': [], 'dmin': smin, 'dmax': -1, 'rep': rep}]*ns,
+                                     [{'dl': [], 'dmin': tmin, 'dmax': -1, 'rep': rep}]*nt))
+    one = {'dl': [1], 'dmin': 0, 'dmax': 0, 'rep': False}
+    opt = {'dl': [], 'dmin': 0, 'dmax': 1, 'rep': False}
+    anyn = {'dl': [], 'dmin': 0, 'dmax': -1, 'rep': False}
+    out += [sdesc([one], [opt]*3), sdesc([one]*2, [opt]*3), sdesc([one]*3, [one]*3), sdesc([opt]*3, [opt]*3),
+            sdesc([anyn], [one]*3), sdesc([anyn]*2, [one]*3), sdesc([anyn]*2, [opt]*3),
+            sdesc([{'dl': [2], 'dmin': 0, 'dmax': 0, 'rep': False}], [opt]*4),
+            sdesc([{'dl': [2], 'dmin': 0, 'dmax': 0, 'rep': True}], [{'dl': [], 'dmin': 0, 'dmax': -1, 'rep': True}]*3)]
+    return [json_copy(s) for s in out]
+
+
+def json_copy(s):
+    import json
+    return json.loads(json.dumps(s))
